@@ -10,7 +10,7 @@ import pulsarbat as pb
 from harness.common import qlit, zlit, optlit, listlit, boollit
 from harness import exact as X
 
-VFILES = ['Lib/PySlice.v', 'Model/FastLen.v', 'Model/Ledger.v', 'Proofs/LedgerProofs.v', 'Gen/GenLedger.v', 'Proofs/LedgerGen.v', 'Props/C01.v',
+VFILES = ['Lib/PySlice.v', 'Model/FastLen.v', 'Model/Ledger.v', 'Proofs/LedgerProofs.v', 'Gen/GenLedger.v', 'Gen/GenFastLenCrop.v', 'Proofs/LedgerGen.v', 'Props/C01.v',
           'Gen/GenUtils.v', 'Proofs/FastLenA.v', 'Proofs/FastLenB.v', 'Proofs/FastLenPrev.v', 'Proofs/FastLenTop.v']
 
 HEADER = '''From Coq Require Import ZArith QArith List. Import ListNotations. Open Scope Z_scope.
